@@ -492,6 +492,8 @@ impl Ctx {
             cases: cases as u32,
             failure_persistence: None,
             max_shrink_iters: 3000,
+            // shrinking only improves the replay file, never the verdict: it is cut off after two minutes per shard
+            max_shrink_time: 120_000,
             max_global_rejects: 1_000_000,
             ..Config::default()
         };
